@@ -184,6 +184,22 @@ CLAIMED = {
              "that are not SIds, empty objective, empty reaction, ids outside SafeId, parameter id collision) are listed in known_findings.json.",
         technique="Lean 4 proof (identifier escaping and bound parameters) + differential correspondence + validated round trips on the real code",
         design="DESIGN.md section 5, C10"),
+    "C12": dict(
+        engine="copy",
+        text="Lean 4: (1) frame theorem on an abstract heap (objects with content and references): if nothing is reachable from both roots, no sequence "
+             "of edits through one root changes the content or the set of objects reachable from the other, and separation is preserved "
+             "(edits_invisible, edits_invisible_symm; shared_object_leaks shows the hypothesis is needed); (2) copy_separates: the copy specification "
+             "of Model.copy, regenerated on every run from the AST of Model.copy (by reference / copy() / deepcopy / rebuilt per class and attribute) and "
+             "joined with the mutability of live attribute values, hands no mutable object over (decide over the whole generated table). The table is "
+             "checked against the observed object identity between models and their copies; an object-graph walker computes reach(original) ∩ reach(copy) "
+             "for Model.copy / deepcopy / pickle on generated models (groups of groups, user constraints, contexts open at copy time); equivalence of "
+             "content, raw GLPK problem, tolerances and optimum; distinct objects pointing at the copy; random edit / optimisation / analysis sequences on "
+             "either side with the full observable state of the other before and after each step; Reaction.copy, Metabolite.copy, Gene.copy, + - *.",
+        note="Partial: the heap theorem is about the abstract sharing relation; that the walker sees every reference is trusted for Python-level references "
+             "(__dict__, __slots__, builtin containers); references inside C extensions (GLPK, symengine) are covered behaviourally only. Trusted: Lean kernel, "
+             "standard axioms, the AST pattern matcher of translate_copy.py (validated against observed identity every run).",
+        technique="Lean 4 proof (heap frame theorem + generated copy specification) + object-graph walker and edit histories on the real code",
+        design="DESIGN.md section 5, C12"),
 }
 
 PENDING_REASON = "check under construction in this session (see DESIGN.md section 9 build order); not claimed until its Lean model, theorems and correspondence exist"
@@ -228,6 +244,8 @@ def main():
              "kind_free_text": "Lean table model SummaryM + driver, compared with ModelSummary / MetaboliteSummary frames"},
             {"name": "io", "path": "harness/richgen.py", "serves_properties": ["C10", "C11"],
              "kind_free_text": "rich model generator / dump, Lean DictIO and SbmlId models + drivers, round trips through every format"},
+            {"name": "copy", "path": "harness/c12.py", "serves_properties": ["C12"],
+             "kind_free_text": "translate_copy.py (AST of Model.copy -> Gen/CopySpec.lean), object-graph walker, edit histories on original and copy"},
             {"name": "gpr", "path": "harness/c08.py", "serves_properties": ["C08"],
              "kind_free_text": "Lean model GPRM (rule trees, parser, remover) + generated escape tables + correspondence against cobra.core.gene.GPR"},
         ],
